@@ -67,7 +67,7 @@ func GatherOperations(specDoc Provider, operationIDs []string) map[string]OpRef 
 				Path:   pth,
 				ID:     vv.ID,
 				Op:     &vv,
-				Ref:    spec.MustCreateRef("#" + path.Join("/paths", jsonpointer.Escape(pth), method)),
+				Ref:    spec.MustCreateRef("#" + strings.ReplaceAll(path.Join("/paths", jsonpointer.Escape(pth), method), "%", "%25")), // a literal '%' must be escaped in a URI fragment
 			})
 		}
 	}
